@@ -17,7 +17,7 @@ Lemma step_sim s a o :
   let '(a', x') := sp_step a o in
   x = x' /\ Rst s' a'.
 Proof.
-  intros [HR Hh]. destruct o as [t p|k| | |]; cbn [step sp_step].
+  intros [HR Hh]. destruct o as [t p|k| | | |]; cbn [step sp_step].
   - (* add *)
     destruct (t <? tcur (sq s)) eqn:E.
     + unfold add, sp_add. rewrite <- (R_tcur _ _ _ HR), E. split; [reflexivity|]. split; assumption.
@@ -39,6 +39,7 @@ Proof.
     split; [|split; assumption]. f_equal. rewrite (R_len _ _ _ HR). unfold sp_len, pend.
     rewrite (R_zero _ _ _ HR), !app_length, (Permutation_length (R_perm _ _ _ HR)). reflexivity.
   - split; [|split; assumption]. f_equal. apply (R_tcur _ _ _ HR).
+  - split; [|split; assumption]. apply (R_peek _ _ _ HR).
 Qed.
 
 Lemma run_sim ops : forall s a,
@@ -58,6 +59,16 @@ Qed.
 Lemma Rst_init n t : n <> 0 -> t <> 0 -> Rst (init n t) sp_init.
 Proof. intros Hn Ht. split; [apply R_new; assumption|reflexivity]. Qed.
 
+Lemma Rst_init_at n t ts : n <> 0 -> t <> 0 -> Rst (init_at n t ts) (sp_init_at ts).
+Proof. intros Hn Ht. split; [apply R_new_at; assumption|reflexivity]. Qed.
+
+Theorem cq_refines_at n t ts ops : n <> 0 -> t <> 0 -> run_ops_at true n t ts ops = sp_run_ops_at ts ops.
+Proof. intros Hn Ht. apply run_sim. apply Rst_init_at; assumption. Qed.
+
+Theorem cq_inv_reachable_at n t ts ops : n <> 0 -> t <> 0 ->
+  Rst (fst (run_from true (init_at n t ts) ops)) (fst (sp_run_from (sp_init_at ts) ops)).
+Proof. intros Hn Ht. apply run_sim. apply Rst_init_at; assumption. Qed.
+
 (* C01.3: outputs do not depend on (n, t) *)
 Theorem cq_refines n t ops : n <> 0 -> t <> 0 -> run_ops true n t ops = sp_run_ops ops.
 Proof. intros Hn Ht. apply run_sim. apply Rst_init; assumption. Qed.
@@ -70,12 +81,13 @@ Proof. intros Hn Ht. apply run_sim. apply Rst_init; assumption. Qed.
 (* C01.2: the scan never runs out of fuel, i.e. the Rust loop terminates *)
 Lemma sp_step_no_fuel a o : snd (sp_step a o) <> OOutOfFuel.
 Proof.
-  destruct o as [t p|k| | |]; cbn [sp_step].
+  destruct o as [t p|k| | | |]; cbn [sp_step].
   - unfold sp_add. destruct (t <? s_tcur (ss a)); [cbn; discriminate|]. destruct (t =? s_tcur (ss a)); cbn; discriminate.
   - destruct (pick_handle (shandles a) k) as [[? ?]|]; cbn; discriminate.
   - unfold sp_fetch. destruct (s_zero (ss a)); [destruct (s_rest (ss a))|]; cbn; discriminate.
   - cbn; discriminate.
   - cbn; discriminate.
+  - cbn. unfold sp_peek. destruct (s_zero (ss a)); [destruct (s_rest (ss a))|]; discriminate.
 Qed.
 
 Lemma sp_run_no_fuel ops : forall a, ~ In OOutOfFuel (snd (sp_run_from a ops)).
@@ -88,10 +100,15 @@ Qed.
 Theorem cq_scan_total n t ops : n <> 0 -> t <> 0 -> ~ In OOutOfFuel (run_ops true n t ops).
 Proof. intros Hn Ht. rewrite cq_refines by assumption. apply sp_run_no_fuel. Qed.
 
+Theorem cq_scan_total_at n t ts ops : n <> 0 -> t <> 0 -> ~ In OOutOfFuel (run_ops_at true n t ts ops).
+Proof. intros Hn Ht. rewrite cq_refines_at by assumption. apply sp_run_no_fuel. Qed.
+
 (* wire-level statement: the two runners agree on every input line *)
 Theorem run_eq_sp_run input : run input = sp_run input.
 Proof.
-  unfold run, sp_run. destruct input as [|n [|t r]]; try reflexivity.
+  unfold run, sp_run. destruct input as [|n [|t [|ts r]]]; try reflexivity.
   destruct (n =? 0) eqn:En; [reflexivity|]. destruct (t =? 0) eqn:Et; [reflexivity|]. cbn [orb].
-  apply N.eqb_neq in En, Et. rewrite cq_refines by assumption. reflexivity.
+  apply N.eqb_neq in En, Et. destruct (ts =? 0) eqn:Es.
+  - apply N.eqb_eq in Es. subst ts. rewrite cq_refines by assumption. reflexivity.
+  - rewrite cq_refines_at by assumption. reflexivity.
 Qed.
